@@ -187,25 +187,28 @@ example : ∀ o ∈ (step (drun (s1, none) evs2).1 none (kn [1, 2]) (.msg 1 (.pi
       (step (drun (s1, none) evs2).1 none (kn [1, 2]) (.msg 1 (.piece 0 0 16384 true))).1.st.diskOKi i = true :=
   reported_only_verified_step _ _ _ _ (drun_sound0 evs2 (s1, none) s1_sound0)
 
-/-! Why the step form speaks of the disk and not of the bit: stop-after-download, a verify issued while
-nothing is on disk (it starts the download and stays pending, `verify_without_files_starts_download`),
-the allocator gate held.  The step in which the write completes announces `have:0`, completes, stops,
-and the pending verify restarts the torrent without its bitfield — all inside the same op.  The piece is
-verified on disk; there is no bitfield at the end of the step. -/
+/-! The step form speaks of the disk and not of the bit.  Before the fix of finding C04-F4 there was a step
+that sends `have:0` and ends without a bitfield: stop-after-download, a verify issued while nothing was on
+disk (it started the download and stayed pending), the allocator gate held; the step in which the write
+completed announced `have:0`, completed, stopped, and the stale pending verify restarted the torrent without its
+bitfield — all inside the same op.  After the fix that history is gone: the verify ends `Stopped` at once
+(`Props/C04.lean`, `verify_without_files_ends_stopped`), and a pending verify excludes `Downloading`
+(`no_stale_verify_flag`).  No other witness is known; the bit form ("every `have:i` of a step has bit `i`
+set afterwards") is not proved.  Below: the same events now, and the stop-after-download step, which sends
+`have:0` and ends `Stopped` with its bitfield. -/
 private def s1sa : St := { s1 with cfg := { c1 with stopAfter := true } }
 private def evs3 : List Ev := [
   ⟨.verify, kn [], [], []⟩,
-  ⟨.peer 1 "10.0.0.2" true true false, kn [], [], []⟩,
-  ⟨.peer 2 "10.0.0.3" true true false, kn [1], [], []⟩,
-  ⟨.msg 1 .haveAll, kn [1, 2], [], []⟩,
-  ⟨.msg 1 .unchoke, kn [1, 2], [⟨1, 0, false, false, false⟩], []⟩,
-  ⟨.gate .open true, kn [1, 2], [⟨1, 0, false, false, false⟩], []⟩]
+  ⟨.peer 1 "10.0.0.2" true true false, kn [], [], []⟩]
 
-example : (step (drun (s1sa, none) evs3).1 none (kn [1, 2]) (.msg 1 (.piece 0 0 16384 true))).1.outs =
+example : (drun (s1sa, none) (evs3.take 1)).1.status = .stopped ∧ (drun (s1sa, none) (evs3.take 1)).1.doVerify = false ∧
+    (drun (s1sa, none) evs3).1.peers = [] := by decide
+
+example : (step (drun (s1sa, none) evs2).1 none (kn [1, 2]) (.msg 1 (.piece 0 0 16384 true))).1.outs =
       [⟨1, "notinterested"⟩, ⟨2, haveMsg 0⟩] ∧
-    (step (drun (s1sa, none) evs3).1 none (kn [1, 2]) (.msg 1 (.piece 0 0 16384 true))).1.st.diskOK = [true] ∧
-    (step (drun (s1sa, none) evs3).1 none (kn [1, 2]) (.msg 1 (.piece 0 0 16384 true))).1.st.bf = none ∧
-    (step (drun (s1sa, none) evs3).1 none (kn [1, 2]) (.msg 1 (.piece 0 0 16384 true))).1.st.status = .allocating := by
+    (step (drun (s1sa, none) evs2).1 none (kn [1, 2]) (.msg 1 (.piece 0 0 16384 true))).1.st.diskOK = [true] ∧
+    (step (drun (s1sa, none) evs2).1 none (kn [1, 2]) (.msg 1 (.piece 0 0 16384 true))).1.st.bf = some [true] ∧
+    (step (drun (s1sa, none) evs2).1 none (kn [1, 2]) (.msg 1 (.piece 0 0 16384 true))).1.st.status = .stopped := by
   decide
 end Example
 
